@@ -691,3 +691,54 @@ def ob_dial_name(report, prop):
         ob.done([ex], 'held' if n else 'inconclusive', '', {'paths': total}, paths=total)
     return guarded(report, 'dialer_offers_primary_name', 'every dial (Endpoint::connect, Endpoint::connect_with_expected_peer_id) reaches quinn::Endpoint::connect_with with config.server_name() '
                    '(the primary network name) as the offered name', ['Endpoint::connect', 'Endpoint::connect_with_expected_peer_id'], {'inline_depth': 4}, body)
+
+
+_TLS_STATE_TYPES = re.compile(r'StoresServerSessions|ClientSessionStore|Resumption|ProducesTickets|SessionMemoryCache|TicketSwitcher|Ticketer|\bServerConfig\b|\bClientConfig\b|'
+                              r'ResolvesServerCert|ResolvesClientCert|CertifiedKey|SigningKey|CertVerifier|ExpectedCertVerifier')
+
+
+def ob_tls_state_per_endpoint(report, prop):
+    """every TLS configuration an endpoint uses is built from that endpoint's own key/certificate and carries its own session state: nothing that takes part in a
+    handshake (session cache, ticketer, resumption store, certificate resolver, verifier, a whole rustls config) lives in a process-global static shared with the
+    other endpoints of the process.  A shared server session cache lets endpoint B resume a session the dialer established with endpoint A: the dialer then
+    attributes B's connection to A's certificate without B ever proving possession of any key."""
+    def body(ob):
+        ex = e2.executor('anemo', [], max_depth=1)
+        prog = ex.prog
+        roots = []
+        for fs in prog.fns.values():
+            for f in fs:
+                if f.blocks and '{closure' not in f.raw and re.search(r'\b(ServerConfig|ClientConfig|EndpointConfig)\b', f.ret or '') and not re.search(r'^&', (f.ret or '').strip()):
+                    roots.append(f)
+        if not roots:
+            return ob.done([ex], 'inconclusive', 'no function of the crate builds a TLS/QUIC configuration', paths=0)
+        reach = {}
+        for f in roots:
+            reach[f.raw] = f
+            for g in e2.local_callees(prog, f, depth=3).values():
+                reach[g.raw] = g
+        allf = []
+        for f in list(reach.values()):
+            allf.append(f)
+            for raw, fs in prog.fns.items():
+                if raw.startswith(f.raw + '::{closure#'):
+                    allf += [x for x in fs if x.blocks]
+        found, bad = [], []
+        for f in allf:
+            for name, ty in getattr(f, 'statics', None) or []:
+                if '__CALLSITE' in name:
+                    continue
+                found.append((f.name, name, ty))
+                if _TLS_STATE_TYPES.search(ty):
+                    bad.append((f.name, name, ty))
+        if bad:
+            fn_, name, ty = bad[0]
+            o = ob.done([ex], 'violated', f'{fn_} (reached from the TLS configuration builders) uses the process-global `static {name}: {ty.lstrip("&")}`: handshake state shared between the endpoints of '
+                        'a process - e.g. one server session cache - lets one endpoint resume a session established with another, so the dialer attributes the connection to a certificate '
+                        'whose key the answering endpoint never proved to hold', {'statics': [list(x) for x in found]}, key='tls-shared-static:' + name.rsplit('::', 1)[-1], paths=len(allf))
+            o.replay = write_replay(prop, o.name, {'shared_handshake_state': [list(b) for b in bad]})
+            return o
+        ob.done([ex], 'held', '', {'config_builders': sorted(f.name for f in roots), 'functions_scanned': len(allf), 'statics_referenced': sorted({f'{n}: {t}' for _, n, t in found})}, paths=len(allf))
+    return guarded(report, 'tls_state_is_per_endpoint', 'call graph (MIR) of every function that builds a rustls/quinn configuration: no session cache, ticketer, certificate resolver, verifier or whole '
+                   'TLS configuration is taken from a process-global static', ['EndpointConfigBuilder::{build,server_config,client_config}', 'EndpointConfig::client_config_with_expected_server_identity'],
+                   {'call graph': 'crate-local static calls, 3 levels + nested closures', 'statics': 'as listed by rustc per MIR body'}, body)
